@@ -227,6 +227,7 @@ LAW_FAMILIES = {
     'rescale_q': dict(law='rescale', dayset=3, sell=(0, 1), splits=(1, 3), timings=BOTH),
     'rescale_t': dict(law='rescale', dayset=3, timings=BOTH),
     'rescale5_t': dict(law='rescale', dayset=1, splits=(1, 2, 4), maxcells=5, timings=BOTH),
+    'rescale_events_q': dict(law='rescale', dayset=3, buy=(0, 1, 2), sell=(0, 1), splits=(1,), timings=('"end"',), events=(1, 2), maxcells=4),
     'rescale_two_q': dict(law='rescale', secs='SecSeqAB', dayset=7, buy=(0, 2), sell=(0, 1), splits=(1, 3), timings=BOTH),
     'extend_events_q': dict(law='extend', dayset=9, buy=(0, 1, 2), sell=(0, 1), splits=(1,), prefix=3, events=(1, 2, 3), maxcells=4),
     'unsplit_q': dict(law='unsplit', dayset=1, splits=(1, 2), maxcells=4),
